@@ -440,6 +440,42 @@ def forkOntoLive (ref : Nat) (rs : List Rec) : List Nat :=
 
 end Life
 
+/-! ## C01 keyed by entry: accepted samples with their incarnation
+
+The incarnation index of a sample = the pid / tid suffixes of the process and thread incarnations that are current
+right after the sample's own record has been read (`Life.step`: a sample creates its thread on demand). The entry
+of the profile that must carry the sample is `idStr pid psuffix` / `idStr tid tsuffix` (`pid`, `pid.1`, …). Computed
+from the bare record list; meaningful for histories inside `Life.grammarOk` (where `Life` is the judged reading). -/
+
+structure AccI where
+  pid : Nat
+  tid : Nat
+  t : Nat
+  psuffix : Nat
+  tsuffix : Nat
+deriving Repr, DecidableEq
+
+/-- the (process index, thread index) of the incarnations current for (pid, tid) -/
+def Life.curIdx (l : Life.S) (pid tid : Nat) : Option (Nat × Nat) :=
+  match Life.curProc l pid with
+  | some pi => (Life.curThread l pi tid).map (fun ti => (pi, ti))
+  | none => none
+
+def accIncStep (st : (Last × Life.S) × List AccI) (r : Rec) : (Last × Life.S) × List AccI :=
+  let l' := Life.step st.1.2 r
+  let a := accStep (st.1.1, []) r
+  let new : List AccI := match r, a.2 with
+    | .sample pid tid t _ _ _ _, [_] =>
+      let idx := Life.curIdx l' pid tid
+      [{ pid, tid, t,
+         psuffix := ((idx.bind (fun i => l'.ps[i.1]?)).map (·.suffix)).getD 0,
+         tsuffix := ((idx.bind (fun i => l'.ts[i.2]?)).map (·.suffix)).getD 0 }]
+    | _, _ => []
+  ((a.1, l'), st.2 ++ new)
+
+def acceptedInc (ref : Nat) (rs : List Rec) : List AccI :=
+  (rs.foldl accIncStep (([], { ref, cur := ref }), [])).2
+
 /-! ## C02: announced mappings and the newest-live-covering rule -/
 
 /-- what a process has been told about its address space, oldest first: (timestamp, mapping) -/
